@@ -8,7 +8,7 @@ import json
 from checks import execlib
 from vf import common
 
-OWNED = {'outcome': 'outcome', 'executor_crash': 'executor thread failed',
+OWNED = {'outcome': 'outcome', 'false_pass': 'false PASS', 'executor_crash': 'executor thread failed',
          'no_return': 'execute() did not return'}
 
 
